@@ -512,7 +512,11 @@ func (w *World) Load(n *Node, vs []*accountant.Vertex) error {
 			snap = snap[:i] + " E=?" + snap[i+1+j:]
 		}
 	}
-	w.c.Line("LOAD %d %s | %s | %s", n.id, strings.Join(names, ","), errTag(err), snap)
+	nl := strings.Join(names, ",")
+	if nl == "" {
+		nl = "-" // a stream that delivered nothing
+	}
+	w.c.Line("LOAD %d %s | %s | %s", n.id, nl, errTag(err), snap)
 	w.after(n, "load", err)
 	return err
 }
